@@ -23,7 +23,7 @@ EXPLANATION = (
     "2) of if/else/elif, try/except/else/finally, for/else, while/else, with, match: the return statement is found "
     "and every returned literal kind is covered by the inferred result. (several_returns) two (thorough: three) return statements of different shapes - scalars, "
     "tuples of equal and different length incl. permutations of each other - are all covered position by position. "
-    "(no_return) bodies without 'return <value>' yield no results. Shim conformance (every run): all 732 statement trees and all annotation shapes are rendered to "
+    "(no_return) bodies without 'return <value>' yield no results. Shim conformance (every run): all statement trees (a spread of 500) and all annotation shapes are rendered to "
     "Python, parsed by the real mypy, and the real visitor must infer identical results on real and builder-made nodes."
 )
 ASSUMPTIONS = [
@@ -49,7 +49,7 @@ def plan(tier):
            stubs=["mypy node classes -> validated shim"], symbolic="shape selectors"),
         CH("grouping", "harness.c07", "grouping", [f"0:{n},1:{a}" for n in range(3 if tier == "thorough" else 2) for a in range(4 if tier == "thorough" else 3)],
            timeout=t, desc="inferred result grouping covers every returned type", symbolic="shape selectors"),
-        CH("inferred", "harness.c07", "inferred", [f"0:{k}" for k in range(12)], timeout=t, desc="return-statement search and coverage",
+        CH("inferred", "harness.c07", "inferred", [f"0:{k}" for k in range(14)], timeout=t, desc="return-statement search and coverage",
            stubs=["mypy node classes -> validated shim"], symbolic="statement-tree selectors"),
         CH("no_return", "harness.c07", "no_return", [""], timeout=t, desc="no annotation, no returned value -> no results"),
         CH("several_returns", "harness.c07", "several_returns", [f"0:{a}" for a in range(7)], timeout=t,
